@@ -529,7 +529,7 @@ def provider_spec(draw, maxmods: int):
             for c in classes[first:]:
                 c['alias'] = None
         modules.append({'pkg': pkg, 'name': name, 'listed': listed})
-    unknown = draw(st.lists(st.sampled_from(['zz_unknown', 'P0', 'Root', 'm0', 'nomod_zz:X', '@pa.m0:Nope', '@pa.m_none:X', '@root:Root', '@pb.m1:P0']), min_size=1, max_size=3, unique=True))
+    unknown = draw(st.lists(st.sampled_from(['zz_unknown', 'P0', 'Root', 'm0', 'nomod_zz:X', 'nopkg_zz.sub:X', 'nopkg_zz.sub.deep:X', '@pa.nosub_zz.m:X', '@pa.m0:Nope', '@pa.m_none:X', '@root:Root', '@pb.m1:P0']), min_size=1, max_size=3, unique=True))
     return {'mode': mode, 'modules': modules, 'classes': classes, 'unknown': unknown}
 
 
